@@ -233,7 +233,13 @@ class Field:
     array: Optional[Tuple[int, Optional[int]]] = None  # (count, stride or None = omitted)
     access: str = "rw"  # rw | r | w | ''
     doc: Optional[str] = None
+    qualified: bool = False  # spell an arbitrary-int field type as `arbitrary_int::uN`
     style: str = "std"  # attribute spelling: std | stride_first | access_first | stride_mid, optional suffix _colon (legacy `stride: n`)
+
+    @property
+    def base(self):
+        """field name without the raw-identifier prefix: what with_/set_ and the builder step are named after"""
+        return self.name[2:] if self.name.startswith("r#") else self.name
 
     @property
     def readable(self):
@@ -316,6 +322,8 @@ class Field:
 
     def decl(self):
         ty = self.ty.rust()
+        if getattr(self, "qualified", False) and self.ty.kind == "uint":
+            ty = "arbitrary_int::" + ty
         if self.array:
             ty = f"[{ty}; {self.array[0]}]"
         doc = f"    /// {self.doc}\n" if self.doc else ""
@@ -343,6 +351,8 @@ class Struct:
     def pname(self):
         return self.partial or f"Partial{self.name}"
     derives: Tuple[str, ...] = ()
+    vis: str = "pub"
+    debug_first: bool = False
 
     @property
     def storage(self):
@@ -371,16 +381,18 @@ class Struct:
 
     def decl(self):
         args = [self.base_ty]
+        if self.debug and self.debug_first:
+            args.append("debug")
         if self.default is not None:
             d = self.default
             val = d.const_name if d.const_name else hexlit(d.value)
             args.append(f"default {d.form} {val}")
-        if self.debug:
+        if self.debug and not self.debug_first:
             args.append("debug")
         lines = [f"#[bitfield({', '.join(args)})]"]
         if self.derives:
             lines.append(f"#[derive({', '.join(self.derives)})]")
-        lines.append(f"pub struct {self.name} {{")
+        lines.append(f"{self.vis + ' ' if self.vis else ''}struct {self.name} {{")
         for f in self.fields:
             lines.append(f.decl())
         lines.append("}")
